@@ -55,7 +55,8 @@ class World:
             for i, word in enumerate(rng.sample(["Index", "Parent", "Name", "X", "Y", "Layer", "Project", "Flags"], 4)):
                 mm.user_defined[i].label = word
             return mm
-        self.types = [api.m.Amplifier, api.m.Generator, api.m.Filter, api.m.MultiSynth, api.m.Lfo, labelled_metamodule, api.m.Sampler]
+        from .. import workload as _workload
+        self.types = [api.m.Amplifier, api.m.Generator, api.m.Filter, api.m.MultiSynth, api.m.Lfo, labelled_metamodule, api.m.Sampler] + _workload.containerish_types()
         class CountingProject(api.Project):
             """An application's Project subclass with a length (number of patterns carrying notes): zero right now."""
 
